@@ -223,7 +223,8 @@ def _emit_memory_keep_modes(name, memory, namespace, add_data_file):
     return g["_memory_generate_verilog"](name, memory, namespace, add_data_file)
 
 
-EXPR_PATCHES = ("signed_const", "slice_signed", "cmp_signed", "full_slice", "selfdet_width", "case_key_signed", "cat_target_wire")
+EXPR_PATCHES = ("signed_const", "slice_signed", "cmp_signed", "full_slice", "selfdet_width", "case_key_signed", "cat_target_wire",
+                "port_reg_init")
 
 
 @contextlib.contextmanager
@@ -314,6 +315,13 @@ class SideB:
         self.out = out
         ns = out.ns
         self.text = out.main_source if text_edit is None else text_edit(out.main_source)
+        if "port_reg_init" in patches:
+            import re
+            for sig in info["ios"]:
+                if getattr(sig, "type", None) == "reg" and getattr(sig, "direction", None) == "output":
+                    n = ns.get_name(sig)
+                    init = lx_expr._generate_expression(ns, sig.reset)[0]
+                    self.text = re.sub(r"(output reg\s+(?:signed\s+)?(?:\[\d+:0\]\s+)?%s)(?=,?\n)" % re.escape(n), r"\1 = " + init, self.text)
         self.data_files = dict(getattr(out, "data_files", {}) or {})
         self.sim = s = vlog.Sim(self.text, self.data_files, extra=extra, lenient_const_blocks=lenient)
         self.in_names = [ns.get_name(x) for x in info["inputs"]]
@@ -347,11 +355,60 @@ class SideB:
         self.sim.tick({self.clk[c] for c in cds})
 
 
+import importlib
+lx_simcore = importlib.import_module("litex.gen.sim.core")   # (the package attribute `core` is shadowed by migen.sim.core)
+from migen.fhdl.simplify import MemoryToArray as _MTA
+
+
+def _golden_mta(fix_reset, fix_nc):
+    class _GoldenMTA(_MTA):
+        """MemoryToArray (a) whose storage words, address registers and read-data registers are not reset by the domain
+        reset (the emitted memory template has no reset at all) and/or (b) whose NO_CHANGE read is suppressed by any
+        write-enable bit, like the template's `if (!we)` (Migen lowers it to `If(~we, ...)`: true unless ALL bits are set)."""
+        def transform_fragment(self, i, f):
+            ports = [p for m in f.specials if isinstance(m, Memory) for p in m.ports]
+            _MTA.transform_fragment(self, i, f)
+            adrs = {id(p.adr) for p in ports}
+            wes = {id(p.we): p for p in ports if p.we is not None}
+
+            def walk(st):
+                for x in st:
+                    if isinstance(x, _Assign):
+                        if fix_reset and id(x.r) in adrs and isinstance(x.l, Signal):
+                            x.l.reset_less = True
+                    elif isinstance(x, If):
+                        c = x.cond
+                        if fix_nc and isinstance(c, _Operator) and c.op == "~" and id(c.operands[0]) in wes:
+                            x.cond = (c.operands[0] == 0)
+                        walk(x.t)
+                        walk(x.f)
+                    elif isinstance(x, (list, tuple)):
+                        walk(x)
+            for cd, st in f.sync.items():
+                walk(st)
+            if fix_reset:
+                for arr in self.replacements.values():
+                    for s in arr:
+                        s.reset_less = True
+                for p in ports:
+                    if not p.async_read:
+                        p.dat_r.reset_less = True
+    return _GoldenMTA
+
+
 class RealA:
     """Replays traces from reset on LiteX's *real* Evaluator (optionally the wrapped one for S_w)."""
-    def __init__(self, mk, evaluator_cls=None):
+    def __init__(self, mk, evaluator_cls=None, golden_sim=None):
         self.mod, self.info = mk()
-        self.D = Design(self.mod, clocks=tuple(self.info["clocks"]))
+        if golden_sim:
+            old = lx_simcore.MemoryToArray
+            lx_simcore.MemoryToArray = _golden_mta("reset" in golden_sim, "nochange_we" in golden_sim)
+            try:
+                self.D = Design(self.mod, clocks=tuple(self.info["clocks"]))
+            finally:
+                lx_simcore.MemoryToArray = old
+        else:
+            self.D = Design(self.mod, clocks=tuple(self.info["clocks"]))
         sim = self.sim = self.D.sim
         if evaluator_cls is not None:
             ev = sim.evaluator
@@ -385,6 +442,7 @@ class RealA:
 def run_trace_B(B, trace):
     s = B.sim
     s.reset()
+    B.drive([x.reset.value & _mask(len(x)) for x in B.info["inputs"]])
     s.settle()
     for vals, cds in trace:
         B.drive(vals)
@@ -404,6 +462,7 @@ class Classifier:
         self.variants = {}
         self.has_mem = has_mem_multiclock
         self._real = self._wrapped = None
+        self._gsim = {}
 
     def B(self, key):
         if key not in self.variants:
@@ -444,6 +503,21 @@ class Classifier:
                 todo.append(w)
         if not todo:
             return out
+        if self.has_mem:
+            # simulator-side defects of the memory lowering
+            for gs in (("reset",), ("nochange_we",), ("reset", "nochange_we")):
+                if gs not in self._gsim:
+                    self._gsim[gs] = RealA(self.mk, golden_sim=gs)
+                obsG, memG = self._gsim[gs].run(trace)
+                rest = []
+                for w in todo:
+                    if pick(obsG, memG, w) == V[w]:
+                        out[w] = "sim.memory_" + "+".join(gs)
+                    else:
+                        rest.append(w)
+                todo = rest
+                if not todo:
+                    return out
 
         def explain(key, rule, todo):
             if not todo:
@@ -486,7 +560,7 @@ class Mismatch:
 
 
 def explore(mk, alphabet, clock_choices, cap_transitions, seed=0, conform_target=400, walk=0, walk_menus=None,
-            max_mismatch=12):
+            max_mismatch=24):
     """BFS over the product (S_A, S_B) from reset under every input valuation of `alphabet` and every clock choice,
     to closure or `cap_transitions`; then (walk > 0) one long deterministic walk of `walk` cycles with corner values
     chosen by a fixed LCG (not by `seed`).  Phi: after every settle and every edge all observed signals and memory
@@ -495,13 +569,19 @@ def explore(mk, alphabet, clock_choices, cap_transitions, seed=0, conform_target
     B = SideB(mk)
     D, fsA, simB = A.D, A.fs, B.sim
     st = dict(states=0, transitions=0, conformed=0, exhaustive=True, walk_cycles=0, depth=0)
-    mism = {}
+    mism = []
+    st["mismatching_transitions"] = 0
+
+    per_obs = {}
 
     def note(which, trace, oa, ob, phase):
-        for w in which:
-            key = w
-            if key not in mism and len(mism) < max_mismatch:
-                mism[key] = Mismatch(w, list(trace), oa, ob, phase)
+        # every mismatching observation is recorded (and later classified) at least 3 times, shortest traces first
+        st["mismatching_transitions"] += 1
+        fresh = [w for w in which if per_obs.get(w, 0) < 3]
+        if fresh or len(mism) < max_mismatch:
+            for w in which:
+                per_obs[w] = per_obs.get(w, 0) + 1
+            mism.append(Mismatch(list(which), list(trace), oa, ob, phase))
 
     def diff(oa, ob, ma, mb):
         which = [k for k in range(len(oa)) if oa[k] != ob[k]]
@@ -512,9 +592,11 @@ def explore(mk, alphabet, clock_choices, cap_transitions, seed=0, conform_target
                         which.append(("mem", k, a))
         return which
 
+    in_reset = [s.reset.value & _mask(len(s)) for s in A.info["inputs"]]
     fsA.v[:] = fsA.reset
     fsA.settle()
     simB.reset()
+    B.drive(in_reset)        # an undriven input has no value of its own: the test bench shows the FHDL reset value
     simB.settle()
     oa, ob = A.observe(), B.observe()
     w0 = diff(oa, ob, A.mem_words(), B.mem_words())
@@ -593,6 +675,7 @@ def explore(mk, alphabet, clock_choices, cap_transitions, seed=0, conform_target
         fsA.v[:] = fsA.reset
         fsA.settle()
         simB.reset()
+        B.drive(in_reset)
         simB.settle()
         trace = []
         sa = D.state()
@@ -626,7 +709,7 @@ def explore(mk, alphabet, clock_choices, cap_transitions, seed=0, conform_target
             if oa != ob or ma != mb:
                 note(diff(oa, ob, ma, mb), trace, _obs_dict(oa, ma), _obs_dict(ob, mb), "walk-edge")
                 break
-    return st, list(mism.values()), A, B
+    return st, mism, A, B
 
 
 class _obs_dict(dict):
